@@ -288,7 +288,20 @@ def b_rule_early_returns(root: Path) -> None:
     p.write_text(s.replace(old, new))
 
 
+def b_regex_scanner(root: Path) -> None:
+    """The multi-character scanners rewritten with (correct) regular expressions: the refactor of seeded change C11-d with
+    the number pattern repaired."""
+    patch = (VERIF / "seeded" / "C11-d" / "patch.diff").read_text()
+    subprocess.run(["patch", "-p1", "-s"], input=patch, text=True, cwd=root, check=True)
+    p = root / "mathy_core/tokenizer.py"
+    s = p.read_text()
+    bad = 're.compile(r"[0-9]*\\.?[0-9]*")'
+    assert bad in s, "C11-d patch changed"
+    p.write_text(s.replace(bad, 're.compile(r"[0-9.]+")'))
+
+
 BENIGN: Dict[str, Tuple[Callable[[Path], None], List[str]]] = {
+    "regex-scanner": (b_regex_scanner, ["C11", "C12", "C10"]),
     "operator-table": (b_operator_table, ["C11", "C12"]),
     "priority-table": (b_priority_table, ["C04", "C09"]),
     "parser-loops": (b_parser_loops, ["C03", "C10", "C12"]),
